@@ -194,6 +194,18 @@ pub fn check(s: &'static dyn Proto, c: &Case, st: &mut Stats, _k: &KnownFindings
     cands.push(("F6a".into(), f6a.clone()));
     cands.push(("all-zero".into(), vec![0u8; nh]));
     cands.push(("all-ff".into(), vec![0xffu8; nh]));
+    // finalizations anybody can compute without any secret: MAC / hash of constant strings
+    {
+        use crate::refmodel as rm;
+        let alg = rm::oprf_hash(m.oprf);
+        let consts: [Vec<u8>; 3] = [vec![0u8; nh], vec![0xffu8; nh], Vec::new()];
+        for (i, k) in consts.iter().enumerate() {
+            for (j, msg) in consts.iter().enumerate() {
+                cands.push((format!("public:HMAC(const{i},const{j})"), rm::hmac(alg, k, &[msg])));
+            }
+            cands.push((format!("public:H(const{i})"), rm::hash(alg, &[k])));
+        }
+    }
     {
         use rand::RngCore;
         let mut r = t(99).rng();
@@ -265,7 +277,7 @@ pub const BUDGET: Budget = Budget {
 pub fn run(cfg: &RunCfg) -> (Outcome, EvidenceExtra) {
     let out = run_property(cfg, "C03", crate::suites::suites20(), BUDGET, strategy, check);
     let ev = EvidenceExtra {
-        rule: "per generated case: 4 pending server states (real record + accepting client; fake record; real record + wrong-password client; one of two answers to the same request) x candidates {all 8*Nh single-bit flips and all 255*Nh single-byte substitutions of two genuine finalizations, finalizations of another session of the same user / of another user+password / of the other answer to the same request, all-zero, all-0xFF, 64 random strings}, each delivered to a clone of the state. evaluation = one ServerLogin::finish call. non-trivial = candidate != the state's genuine finalization; candidates deduplicated per case, cases distinct by hash of (suite, case)".into(),
+        rule: "per generated case: 4 pending server states (real record + accepting client; fake record; real record + wrong-password client; one of two answers to the same request) x candidates {all 8*Nh single-bit flips and all 255*Nh single-byte substitutions of two genuine finalizations, finalizations of another session of the same user / of another user+password / of the other answer to the same request, all-zero, all-0xFF, publicly computable constants (HMAC and hash of all-zero / all-0xFF / empty strings), 64 random strings}, each delivered to a clone of the state. evaluation = one ServerLogin::finish call. non-trivial = candidate != the state's genuine finalization; candidates deduplicated per case, cases distinct by hash of (suite, case)".into(),
         assumptions: vec!["HMAC forgeries that were not generated are out of reach".into()],
         exhaustive: Some(false),
         extra: [("exhaustive_part".to_string(), json!("single-bit and single-byte substitutions of the genuine finalization are enumerated exhaustively per case"))].into_iter().collect(),
